@@ -175,7 +175,7 @@ class Parser:
     def pre_process_data(self, data):
         data = data.decode("utf-8")
         # todo: not sure how to workaround ',' normal way
-        if "input.regex" in data:
+        if '"input.regex"' in data:
             data = self.process_regex_input(data)
         quote_before = r"((?!\'[\w]*[\\']*[\w]*)"
         quote_after = r"((?![\w]*[\\']*[\w]*\')))"
